@@ -31,10 +31,15 @@ def make_file(lines):
     return ListFile(lines)
 
 
-def build_lines(h, eng, specs, pred=None, no_newline=True):
+def no_newline(c, i):
+    return c != 10
+
+
+def build_lines(h, eng, specs, pred=no_newline):
     """specs: list of line specs; a line spec is a list of parts, each a literal str or an
     int (length of a symbolic hole).  Returns (lines, holes) where holes is the dict of
-    symbolic inputs name -> SymStr."""
+    symbolic inputs name -> SymStr.  pred must be a module-level function (it is part of
+    the cache key of the symbolic variables)."""
     holes = {}
     lines = []
     for li, parts in enumerate(specs):
@@ -44,16 +49,7 @@ def build_lines(h, eng, specs, pred=None, no_newline=True):
                 cs += tuple(map(ord, part))
             else:
                 name = 'l%d_%d' % (li, pi)
-
-                def p(c, i, pred=pred):
-                    q = (c != 10) if no_newline else None
-                    if pred is not None:
-                        r = pred(c, i)
-                        if r is not None:
-                            import z3
-                            q = r if q is None else z3.And(q, r)
-                    return q
-                s = h.sym_str(eng, name, part, p)
+                s = h.sym_str(eng, name, part, pred)
                 holes[name] = s
                 cs += s.cs
         lines.append(simp(cs))
